@@ -157,6 +157,34 @@ type cop =
 | CIndexOrInsert of coq_N list * tree
 | CSet of tree
 | CTake
+| CArrAppend of tree list
+| CObjAppend of (coq_N list * tree) list
+| CRetainNonNull
+| CSplitOff of nat
+| CResize of nat * tree
+| CExtendWithin of nat * nat
+| CDrain of nat * nat
+| CSwap of nat * nat
+| CRemoveEntry of coq_N list
+| CEntryAndModify of coq_N list * tree * tree
+| CEntryOrDefault of coq_N list
+| CEntryRemove of coq_N list
+| CEntryInsert of coq_N list * tree
+| CFillNulls of tree
+
+(** val non_null : tree -> bool **)
+
+let non_null = function
+| Leaf d ->
+  negb
+    (keq d ((Npos (Coq_xO (Coq_xI (Coq_xI (Coq_xI (Coq_xO (Coq_xI
+      Coq_xH))))))) :: []))
+| _ -> true
+
+(** val fill : tree -> tree -> tree **)
+
+let fill x t =
+  if non_null t then t else x
 
 (** val last_opt : 'a1 list -> 'a1 option **)
 
@@ -266,6 +294,102 @@ let apply_cop c t =
      | Obj l -> Some ((Obj (assoc_set l k x)), RUnit))
   | CSet x -> Some (x, RUnit)
   | CTake -> Some (tnull, (RTree t))
+  | CArrAppend xs ->
+    (match t with
+     | Arr l -> Some ((Arr (app l xs)), RUnit)
+     | _ -> None)
+  | CObjAppend ms ->
+    (match t with
+     | Obj l ->
+       Some ((Obj
+         (fold_left (fun acc kv -> assoc_set acc (fst kv) (snd kv)) ms l)),
+         RUnit)
+     | _ -> None)
+  | CRetainNonNull ->
+    (match t with
+     | Leaf _ -> None
+     | Arr l -> Some ((Arr (filter non_null l)), RUnit)
+     | Obj l -> Some ((Obj (filter (fun kv -> non_null (snd kv)) l)), RUnit))
+  | CSplitOff n ->
+    (match t with
+     | Arr l ->
+       if PeanoNat.Nat.leb n (length l)
+       then Some ((Arr (firstn n l)), (RTree (Arr (skipn n l))))
+       else None
+     | _ -> None)
+  | CResize (n, x) ->
+    (match t with
+     | Arr l ->
+       Some ((Arr (app (firstn n l) (repeat x (sub n (length l))))), RUnit)
+     | _ -> None)
+  | CExtendWithin (a, b) ->
+    (match t with
+     | Arr l ->
+       if (&&) (PeanoNat.Nat.leb a b) (PeanoNat.Nat.leb b (length l))
+       then Some ((Arr (app l (firstn (sub b a) (skipn a l)))), RUnit)
+       else None
+     | _ -> None)
+  | CDrain (a, b) ->
+    (match t with
+     | Arr l ->
+       if (&&) (PeanoNat.Nat.leb a b) (PeanoNat.Nat.leb b (length l))
+       then Some ((Arr (app (firstn a l) (skipn b l))), (RTree (Arr
+              (firstn (sub b a) (skipn a l)))))
+       else None
+     | _ -> None)
+  | CSwap (i, j) ->
+    (match t with
+     | Arr l ->
+       (match nth_error l i with
+        | Some xi ->
+          (match nth_error l j with
+           | Some xj -> Some ((Arr (set_nth (set_nth l i xj) j xi)), RUnit)
+           | None -> None)
+        | None -> None)
+     | _ -> None)
+  | CRemoveEntry k ->
+    (match t with
+     | Obj l ->
+       Some ((Obj (assoc_del l k)),
+         (match assoc l k with
+          | Some old -> RTree old
+          | None -> RNone))
+     | _ -> None)
+  | CEntryAndModify (k, x, y) ->
+    (match t with
+     | Obj l ->
+       (match assoc l k with
+        | Some _ -> Some ((Obj (assoc_set l k x)), (RTree x))
+        | None -> Some ((Obj (assoc_set l k y)), (RTree y)))
+     | _ -> None)
+  | CEntryOrDefault k ->
+    (match t with
+     | Obj l ->
+       (match assoc l k with
+        | Some v -> Some (t, (RTree v))
+        | None -> Some ((Obj (assoc_set l k tnull)), (RTree tnull)))
+     | _ -> None)
+  | CEntryRemove k ->
+    (match t with
+     | Obj l ->
+       (match assoc l k with
+        | Some old -> Some ((Obj (assoc_del l k)), (RTree old))
+        | None -> Some (t, RNone))
+     | _ -> None)
+  | CEntryInsert (k, x) ->
+    (match t with
+     | Obj l ->
+       Some ((Obj (assoc_set l k x)),
+         (match assoc l k with
+          | Some old -> RTree old
+          | None -> RNone))
+     | _ -> None)
+  | CFillNulls x ->
+    (match t with
+     | Leaf _ -> None
+     | Arr l -> Some ((Arr (map (fill x) l)), RUnit)
+     | Obj l ->
+       Some ((Obj (map (fun kv -> ((fst kv), (fill x (snd kv)))) l)), RUnit))
 
 type op =
 | ONew of tree
